@@ -673,7 +673,7 @@ def run_C10(tier, rng, chk):
                 for ver in (0, 1):
                     for e in ((0, 0, 0, 0), (0, 1, 0, 0), (0, 0, 1, 0), (0, 0, 0, 3), (3, 0, 0, 0), (0, 3, 3, 0)):
                         items.append(P(0, 0x1000, mkB(grp, ver), c, 0x2020, e))
-        for ci, ch in enumerate(chunks(items, 1500)):
+        for ci, ch in enumerate(chunks(items, 400)):       # short scripts: the observer's cost grows with the history
             sw.append(sweep_script("c10_sweep_%s_%d" % (mode, ci), pre, ch))
     out = chk.run_stream(sw, prop="C10")
     res.append(fam("sweep(block C over 0..65535 on 0A from empty / non-empty / extended-check lists; marker pairs; every group type and version; error patterns)", sw, out,
@@ -690,7 +690,7 @@ def run_C10(tier, rng, chk):
             else:
                 L.append(gg.parse_line(rng.choice(["0A", "0A", "0A", "0B", "other", "2A"]), rng.choice([(0, 0, 0, 0)] * 4 + [(0, 1, 0, 0), (0, 0, 1, 0), (0, 1, 1, 0), (0, 2, 2, 0)])))
         hist.append(("c10_hist_%d" % i, L))
-    hist.append(long_runs(rng, "c10", ["0A", "0A", "0B"]))
+    hist.append(long_runs(rng, "c10", ["0A", "0A", "0B"], n_bursts=2))     # obs_C10 costs O(history) per step: two bursts
     out = chk.run_stream(hist, prop="C10")
     res.append(fam("histories(AF pools sharing bitmap bytes, both check modes, corrected blocks with permissive text thresholds)", hist, out, owned_keys=["af"]))
     # the same pair immediately before and after a reset, and the same pair repeated: "since the last
